@@ -279,9 +279,81 @@ func (f *TF) Bin(op Op, a, b *Term) *Term {
 	return f.mk(op, w, 0, 0, "", a, b)
 }
 
+// ub returns an upper bound of the unsigned value of t (cheap syntactic range analysis).
+func ub(t *Term, depth int) uint64 {
+	w := int(t.W)
+	switch t.Op {
+	case OConst:
+		return t.C
+	case OZext:
+		return ub(t.A[0], depth)
+	case OBAnd:
+		if depth > 6 {
+			break
+		}
+		x, y := ub(t.A[0], depth+1), ub(t.A[1], depth+1)
+		if x < y {
+			return x
+		}
+		return y
+	case OLshr:
+		if t.A[1].IsConst() && t.A[1].C < 64 && depth <= 6 {
+			return ub(t.A[0], depth+1) >> t.A[1].C
+		}
+	case OUrem:
+		if t.A[1].IsConst() && t.A[1].C > 0 {
+			return t.A[1].C - 1
+		}
+	case OIte:
+		if depth > 6 {
+			break
+		}
+		x, y := ub(t.A[1], depth+1), ub(t.A[2], depth+1)
+		if x > y {
+			return x
+		}
+		return y
+	}
+	return mask(w)
+}
+
 func (f *TF) Cmp(op Op, a, b *Term) *Term {
 	if a.W != b.W {
 		panic(fmt.Sprintf("Cmp width mismatch %d %d", a.W, b.W))
+	}
+	if a.W > 0 && op != OEq && !(a.IsConst() && b.IsConst()) {
+		ua, ubb := ub(a, 0), ub(b, 0)
+		half := uint64(1) << uint(a.W-1)
+		if (op == OSlt || op == OSle) && ua < half && ubb < half {
+			// both operands are non-negative: signed and unsigned order coincide
+			if op == OSlt {
+				op = OUlt
+			} else {
+				op = OUle
+			}
+		}
+		switch op {
+		case OUlt:
+			if b.IsConst() && ua < b.C {
+				return f.tt
+			}
+			if b.IsConst() && b.C == 0 {
+				return f.ff
+			}
+			if a.IsConst() && a.C >= ubb {
+				return f.ff
+			}
+		case OUle:
+			if b.IsConst() && ua <= b.C {
+				return f.tt
+			}
+			if a.IsConst() && a.C == 0 {
+				return f.tt
+			}
+			if a.IsConst() && a.C > ubb {
+				return f.ff
+			}
+		}
 	}
 	if a.IsConst() && b.IsConst() {
 		x, y := a.C, b.C
